@@ -504,6 +504,24 @@ pub fn sites(tier: Tier) -> Vec<Site> {
                 judge_adaptor(acc, i, guard(|| adaptor_reads(script, stream.len(), 64)), &stream, &format!("a text message of {} bytes ({:?}...) at position {}", t.len(), t.chars().take(6).collect::<String>(), i % 3), replay);
             }));
     }
+    // 1a-exact. one binary message of exactly k x 1020 bytes (the adaptor's buffer size), k = 1..=7, and of the sizes either
+    // side, then the peer says nothing more: what has arrived is handed over without waiting for more
+    {
+        let mut sizes: Vec<usize> = vec![];
+        for k in 1..=7usize { for d in [-4i64, 0, 4] { sizes.push((k as i64 * 1020 + d) as usize); } }
+        let sizes = Arc::new(sizes);
+        let n = sizes.len() as u64 * 2;
+        sites.push(Site::new("exact-multiples-then-quiet", n,
+            "one binary message of k x 1020 - 4, k x 1020, k x 1020 + 4 bytes (k = 1..=7) read with buffers of {6120, 64} bytes while the peer stays quiet",
+            move |i, acc| {
+                let size = sizes[(i / 2) as usize];
+                let read = if i % 2 == 0 { 6120 } else { 64 };
+                let stream: Vec<u8> = (0..size).map(|x| ((x * 11 + x / 253) % 251) as u8 + 1).collect();
+                acc.eval();
+                let replay = json!({"site": "exact-multiples-then-quiet", "index": i, "message_bytes": size, "read_size": read});
+                judge_adaptor(acc, i, guard(|| adaptor_reads(vec![Msg::Bin(stream.clone())], stream.len(), read)), &stream, &format!("one message of {size} bytes, read size {read}, the peer quiet afterwards"), replay);
+            }));
+    }
     // 1b. non-binary messages (text, ping, empty binary) interleaved at every boundary, budget 2
     {
         let stream: Vec<u8> = (0..6).map(|i| 0x61 + i as u8).collect();
